@@ -259,7 +259,16 @@ pub fn explore_all<V: Send>(
                             }
                             let plen = prefix.len();
                             let mut ch = Chooser::new(prefix);
-                            let rep = (job.run)(&mut ch);
+                            // a panic of the harness itself (the subject's panics are caught inside
+                            // the harness) must end the run as a machinery failure: a dead worker
+                            // would leave `active` raised and the other workers waiting for ever
+                            let rep = match std::panic::catch_unwind(std::panic::AssertUnwindSafe(|| (job.run)(&mut ch))) {
+                                Ok(r) => r,
+                                Err(e) => {
+                                    let m = e.downcast_ref::<String>().cloned().or_else(|| e.downcast_ref::<&str>().map(|s| s.to_string())).unwrap_or_else(|| "?".into());
+                                    crate::report::machinery_failure(&format!("the harness panicked in family {}: {m}", job.name));
+                                }
+                            };
                             if let Some(d) = ch.diverged.take() {
                                 if st.divergence.is_none() {
                                     st.divergence = Some(format!("{}: {}", job.name, d));
